@@ -99,6 +99,12 @@ pub fn world16(phase: u8) -> W16 {
     let dummy_code = w.app.store_code(dummy_contract());
     let hook = w.app.instantiate_contract(dummy_code, adm.clone(), &Empty {}, &[], "dummy", None).unwrap();
     must(exec_json(&mut w.app, &adm, &w.epoch_manager.clone(), &json!({"add_hook": {"contract_addr": hook.to_string()}}), &[]), "epoch hook");
+    // the factory owner uses its CloseFlow right once BEFORE any ownership transfer (a contract that remembers who was
+    // allowed the first time would keep honouring the previous owner afterwards): carol opens a flow, the admin closes it
+    let carol = Addr::unchecked(CAROL);
+    must(exec_json(&mut w.app, &carol, &w.incentive.clone(), &json!({"open_flow": {"start_epoch": null, "end_epoch": null, "curve": null, "flow_asset": asset(nat("uusdc"), 50_000), "flow_label": "carolflow"}}),
+        &[coin(1000, "uwhale"), coin(50_000, "uusdc")]), "carol's flow");
+    must(exec_json(&mut w.app, &adm, &w.incentive.clone(), &json!({"close_flow": {"flow_identifier": {"label": "carolflow"}}}), &[]), "factory owner closes carol's flow");
     let mut x = W16 { w, dummy_code, hook, phase, failed_transfers: vec![], sibling_ix: 0, seed: SEED.load(std::sync::atomic::Ordering::Relaxed) };
     if phase == 1 { x.transfer_top(); }
     if phase == 2 { x.transfer_children(); }
